@@ -34,8 +34,17 @@ def addPart_index_guard : String := "part.Index >= ps.total"
 /-- cond types/part_set.go PartSet.AddPart -/
 def addPart_position_guard : String := "part.Proof.Index != int64(part.Index) || part.Proof.Total != int64(ps.total)"
 
+/-- order state/execution.go BlockExecutor.ApplyBlock -/
+def applyblock_order : List String := ["validateBlock", "blockExec.evpool.Update", "blockExec.store.Save"]
+
 /-- const blockchain/v0/pool.go maxTotalRequesters -/
 def bc_maxTotalRequesters : Int := 600
+
+/-- cond blockchain/v0/pool.go BlockPool.sendError -/
+def bc_sendError_guarded : String := "!pool.IsRunning()"
+
+/-- cond blockchain/v0/pool.go BlockPool.sendRequest -/
+def bc_sendRequest_guarded : String := "!pool.IsRunning()"
 
 /-- cond blockchain/msgs.go ValidateMsg -/
 def bc_status_base_guard : String := "msg.Base > msg.Height"
@@ -118,6 +127,9 @@ def c02_vote_carries_cs_round : Bool := true
 /-- cond consensus/state.go State.handleCompleteProposal -/
 def c03_complete_proposal_in_commit : String := "cs.Step == cstypes.RoundStepCommit"
 
+/-- cond types/vote_set.go VoteSet.addVerifiedVote -/
+def c03_conflicting_vote_gate : String := "conflicting != nil && !votesByBlock.peerMaj23"
+
 /-- cond consensus/state.go State.defaultDecideProposal -/
 def c03_decide_valid_block : String := "cs.ValidBlock != nil"
 
@@ -138,6 +150,12 @@ def c03_enterNewRound_guard : String := "cs.Height != height || round < cs.Round
 
 /-- has consensus/state.go State.enterNewRound -/
 def c03_enterNewRound_single_increments : Bool := true
+
+/-- cond consensus/reactor.go Reactor.ReceiveEnvelope -/
+def c03_maj23_claim_any_round : String := "height != msg.Height"
+
+/-- has consensus/reactor.go Reactor.ReceiveEnvelope -/
+def c03_maj23_claim_sets_peer_maj23 : Bool := true
 
 /-- has config/config.go ConsensusConfig.Precommit -/
 def c03_precommit_timeout_formula : Bool := true
@@ -367,6 +385,9 @@ def c09_compare_returns_after_conflict : Bool := true
 /-- cond light/detector.go Client.detectDivergence -/
 def c09_detect_reads_cap : String := "i < cap(errc)"
 
+/-- has light/client.go Client.findNewPrimary -/
+def c09_find_new_primary_clears_witnesses : Bool := true
+
 /-- const light/client.go verifySkippingDenominator -/
 def c09_skipDen : Int := 16
 
@@ -375,6 +396,9 @@ def c09_skipNum : Int := 9
 
 /-- cond light/verifier.go ValidateTrustLevel -/
 def c09_trust_level_guard : String := "lvl.Numerator*3 < lvl.Denominator || lvl.Numerator > lvl.Denominator || lvl.Denominator == 0"
+
+/-- has types/block.go BlockID.IsComplete -/
+def c10_blockid_iscomplete : Bool := true
 
 /-- cond consensus/reactor.go BlockPartMessage.ValidateBasic -/
 def c10_blockpartmsg_round_guard : String := "m.Round < 0"
@@ -396,6 +420,12 @@ def c10_hasheader_equals : Bool := true
 
 /-- has types/part_set.go PartSetHeader.Equals -/
 def c10_header_equals_total_and_hash : Bool := true
+
+/-- cond types/proposal.go Proposal.ValidateBasic -/
+def c10_proposal_complete_gate : String := "<missing>"
+
+/-- cond crypto/merkle/proof.go Proof.Verify -/
+def c10_verify_nil_root_guard : String := "computedHash == nil"
 
 /-- has blockchain/v0/pool.go BlockPool.IsCaughtUp -/
 def c13_caughtup : Bool := true
@@ -477,6 +507,15 @@ def c14_apphash_height_plus_one : Bool := true
 
 /-- order statesync/syncer.go syncer.applyChunks -/
 def c14_applyChunks_order : List String := ["Next", "ApplySnapshotChunkSync", "Discard", "RejectPeer", "DiscardSender", "Retry"]
+
+/-- has node/node.go startStateSync -/
+def c14_handover_boot_err_returns : Bool := true
+
+/-- has node/node.go startStateSync -/
+def c14_handover_seen_err_returns : Bool := true
+
+/-- has node/node.go startStateSync -/
+def c14_handover_sync_err_returns : Bool := true
 
 /-- has light/rpc/client.go Client.ConsensusParams -/
 def c14_params_hash_guard : Bool := true
@@ -594,6 +633,9 @@ def c16_upgrade_dialed_guard : String := "connID != dialedID"
 
 /-- cond p2p/transport.go MultiplexTransport.upgrade -/
 def c16_upgrade_nodeinfo_guard : String := "connID != nodeInfo.ID()"
+
+/-- cond p2p/transport.go MultiplexTransport.upgrade -/
+def c16_upgrade_outbound_guard : String := "dialedAddr != nil"
 
 /-- cond p2p/transport.go MultiplexTransport.upgrade -/
 def c16_upgrade_self_guard : String := "mt.nodeInfo.ID() == nodeInfo.ID()"
@@ -898,8 +940,29 @@ def pv_checkHRS_round : String := "lss.Round > round"
 /-- cond privval/file.go FilePVLastSignState.CheckHRS -/
 def pv_checkHRS_step : String := "lss.Step > step"
 
+/-- has privval/file.go LoadFilePVEmptyState -/
+def pv_emptystate_skips_state : Bool := true
+
+/-- has cmd/tendermint/commands/init.go initFilesWithConfig -/
+def pv_init_uses_load : Bool := true
+
+/-- cond privval/file.go LoadOrGenFilePV -/
+def pv_loadOrGen_key_cond : String := "tmos.FileExists(keyFilePath)"
+
+/-- has privval/file.go LoadOrGenFilePV -/
+def pv_loadOrGen_loads : Bool := true
+
+/-- has privval/file.go LoadFilePV -/
+def pv_load_reads_state : Bool := true
+
+/-- has node/node.go DefaultNewNode -/
+def pv_node_loader : Bool := true
+
 /-- has privval/file.go FilePV.signProposal -/
 def pv_proposal_persist_before_release : Bool := true
+
+/-- has cmd/tendermint/commands/reset.go resetFilePV -/
+def pv_reset_uses_emptystate : Bool := true
 
 /-- has privval/file.go FilePV.saveSigned -/
 def pv_saveSigned_saves : Bool := true
@@ -922,6 +985,9 @@ def pv_stepPropose : Int := 1
 /-- has privval/file.go FilePV.signVote -/
 def pv_vote_persist_before_release : Bool := true
 
+/-- has consensus/replay.go Handshaker.replayBlock -/
+def replay_evpool_empty : Bool := true
+
 /-- cond statesync/chunks.go chunkQueue.Add -/
 def ss_chunk_index_guard : String := "chunk.Index >= q.snapshot.Chunks"
 
@@ -931,6 +997,6 @@ def types_MaxBlockPartsCount : Int := 1601
 /-- const types/vote_set.go MaxVotesCount -/
 def types_MaxVotesCount : Int := 10000
 
-def factCount : Nat := 310
+def factCount : Nat := 332
 
 end Tmv.Facts
